@@ -1073,9 +1073,8 @@ impl<Kd: K> Interp<Kd> {
     /// unref everything the client still owns, collect, report
     fn finalize(&mut self) -> String {
         let c = self.c();
-        let base = self.base_threads;
         gc_threads_asleep();
-        let threads_before = gc_threads().saturating_sub(base);
+        let threads_before = gc_threads();
         // a manager handle is needed for the final queries: take one from a function if necessary
         let m = match self.any_mgr() {
             Some(m) => Some(unsafe { (c.manager_ref)(m) }),
@@ -1104,11 +1103,11 @@ impl<Kd: K> Interp<Kd> {
                 let inner = unsafe { (c.num_inner_nodes)(m) };
                 let vars = unsafe { (c.num_vars)(m) };
                 gc_threads_asleep();
-                let mid = gc_threads().saturating_sub(base);
+                let mid = gc_threads();
                 unsafe { (c.manager_unref)(m) };
                 (format!("collected={n} inner={inner} vars={vars}"), mid)
             }
-            None => ("nomanager".to_string(), gc_threads().saturating_sub(base)),
+            None => ("nomanager".to_string(), gc_threads()),
         };
         let rs = match self.rmgr.take() {
             Some(rm) => {
@@ -1122,8 +1121,16 @@ impl<Kd: K> Interp<Kd> {
             }
             None => "nomanager".to_string(),
         };
-        let after = gc_threads_settle(base).saturating_sub(base);
-        format!("C {cs} threads={threads_before},{alive_mid},{after} || R {rs}")
+        // Other managers (of other instances of this case, or leaked by an earlier case) may be
+        // alive: the counts are reported relative to the count after this instance is gone.  The
+        // client expects its C manager to die iff it still owned something, the mirror always.
+        let want = threads_before.saturating_sub(1 + m.is_some() as usize);
+        let after = gc_threads_settle(want);
+        format!(
+            "C {cs} threads={},{},0 || R {rs}",
+            threads_before.saturating_sub(after),
+            alive_mid.saturating_sub(after)
+        )
     }
 }
 
@@ -1131,10 +1138,10 @@ extern "C" {
     fn free(p: *mut c_void);
 }
 
-fn run_case<Kd: K>(case: &Case, sink: &mut dyn FnMut(String)) {
+fn new_interp<Kd: K>(case: &Case, inst: usize) -> Interp<Kd> {
     let tmp = std::env::var("VERIF_FFI_TMP").unwrap_or_else(|_| "/verif/.cache/work/C19/tmp".into());
     let _ = std::fs::create_dir_all(&tmp);
-    let mut it = Interp::<Kd> {
+    Interp::<Kd> {
         mgrs: BTreeMap::new(),
         funs: BTreeMap::new(),
         subs: BTreeMap::new(),
@@ -1143,19 +1150,34 @@ fn run_case<Kd: K>(case: &Case, sink: &mut dyn FnMut(String)) {
         rfuns: BTreeMap::new(),
         rsubs: BTreeMap::new(),
         tmp,
-        caseid: case.header.split_whitespace().next().unwrap_or("x").to_string(),
+        caseid: format!("{}.{inst}", case.header.split_whitespace().next().unwrap_or("x")),
         cfg: (
             case.param_u64("cap", 1 << 16) as usize,
             case.param_u64("cache", 1024) as usize,
             case.param_u64("threads", 1) as u32,
         ),
         base_threads: 0,
-    };
+    }
+}
+
+/// Ops may start with `@<k>`: the call belongs to the k-th independent client (own C manager, own
+/// mirror, own slots) of this case; all clients run on this one thread.
+fn run_case<Kd: K>(case: &Case, sink: &mut dyn FnMut(String)) {
+    let mut its: BTreeMap<usize, Interp<Kd>> = BTreeMap::new();
     for op in &case.ops {
-        let tok: Vec<&str> = op.split_whitespace().collect();
+        let mut tok: Vec<&str> = op.split_whitespace().collect();
         if tok.is_empty() {
             continue;
         }
+        let mut inst = 0usize;
+        if let Some(k) = tok[0].strip_prefix('@') {
+            inst = k.parse().expect("instance");
+            tok.remove(0);
+            if tok.is_empty() {
+                continue;
+            }
+        }
+        let it = its.entry(inst).or_insert_with(|| new_interp::<Kd>(case, inst));
         // a panic inside the static library aborts the process (it is built with panic=abort) and
         // the lines of the running case are lost: leave a trace of where it happened on stderr
         eprintln!("at: case {} call [{op}]", it.caseid);
@@ -1163,7 +1185,9 @@ fn run_case<Kd: K>(case: &Case, sink: &mut dyn FnMut(String)) {
         sink(format!("{op} -> {res}"));
     }
     // a case without FINAL (shrunk): release what is left so that the next case starts clean
-    if !it.mgrs.is_empty() || !it.funs.is_empty() || !it.subs.is_empty() || it.rmgr.is_some() {
-        let _ = it.finalize();
+    for it in its.values_mut() {
+        if !it.mgrs.is_empty() || !it.funs.is_empty() || !it.subs.is_empty() || it.rmgr.is_some() {
+            let _ = it.finalize();
+        }
     }
 }
